@@ -410,5 +410,7 @@ pub fn lang_vocab(gram: &Value, d: &Value, seed: u64) -> crate::vocab::Vocab {
     words.push(b"\xFF<[3]>".to_vec());
     words.push(b"\xFF<|end|>".to_vec());
     let eos = words.len() as u32 - 1;
-    crate::vocab::Vocab { words, eos, canonical }
+    let mut v = crate::vocab::Vocab { words, eos, canonical, eos_extra: vec![] };
+    v.add_auto_eos(d);
+    v
 }
